@@ -301,6 +301,21 @@ func ruleCursor(w *World, r *Report, pkg *ssa.Package, tag string) {
 		if k := side(bo.X, bo.Y); k != pNone {
 			return k, pos
 		}
+		// `len(list) - cursor == 0` (benign ZA-r4): the same predicate written as a difference
+		if bo.Op == token.EQL || bo.Op == token.NEQ {
+			for _, pr := range [][2]ssa.Value{{bo.X, bo.Y}, {bo.Y, bo.X}} {
+				if z, ok := constInt(pr[1]); ok && z == 0 {
+					if sub, ok := stripInt(pr[0]).(*ssa.BinOp); ok && sub.Op == token.SUB {
+						if k := side(sub.Y, sub.X); k != pNone {
+							return k, pos
+						}
+						if k := side(sub.X, sub.Y); k != pNone {
+							return k, pos
+						}
+					}
+				}
+			}
+		}
 		if bo.Op == token.EQL || bo.Op == token.NEQ {
 			if k := side(bo.Y, bo.X); k != pNone {
 				return k, pos
